@@ -256,6 +256,13 @@ def arm_family(seed, n, base_id, k=3, p_ctx=0.0, p_bare=0.2):
     rnd = g.rnd
     L = [97, 98, 99, 100, 101]
 
+    focus = [L[1]]
+
+    def letter():
+        # most atoms of one definition talk about the same letter (its own arm, the hole of a
+        # class, the single member of a set), so that their arms coincide
+        return focus[0] if rnd.random() < 0.6 else rnd.choice(L)
+
     def rng():
         a = rnd.choice(L[:-1])
         return (a, rnd.choice([x for x in L if x > a]))
@@ -263,11 +270,11 @@ def arm_family(seed, n, base_id, k=3, p_ctx=0.0, p_bare=0.2):
     def base_atom():
         r = rnd.random()
         if r < 0.25:
-            return chr_(rnd.choice(L))
+            return chr_(letter())
         if r < 0.5:
             return set_([rng()])
         if r < 0.65:
-            items = [rng(), (rnd.choice(L),) * 2]
+            items = [rng(), (letter(),) * 2]
             rnd.shuffle(items)
             return set_(list(dict.fromkeys(items)))
         return any_()
@@ -277,12 +284,12 @@ def arm_family(seed, n, base_id, k=3, p_ctx=0.0, p_bare=0.2):
         if r < 0.3:
             return base_atom()
         if r < 0.65:
-            wide = rnd.choice([set_([(97, 101)]), any_(), set_([rng()])])
-            hole = rnd.choice([chr_(rnd.choice(L)), set_([rng()])])
+            wide = rnd.choice([set_([(97, 101)]), set_([(97, 101)]), any_(), set_([rng()])])
+            hole = rnd.choice([chr_(letter()), chr_(letter()), set_([rng()])])
             return diff(wide, hole)
         if r < 0.85:
-            return alt(chr_(rnd.choice(L)), rnd.choice([any_(), set_([rng()]), diff(any_(), chr_(rnd.choice(L)))]))
-        return diff(diff(any_(), chr_(rnd.choice(L))), chr_(rnd.choice(L)))
+            return alt(chr_(letter()), rnd.choice([any_(), any_(), set_([rng()]), diff(any_(), chr_(letter()))]))
+        return diff(diff(any_(), chr_(letter())), chr_(rnd.choice(L)))
 
     def suffix():
         r = rnd.random()
@@ -301,6 +308,7 @@ def arm_family(seed, n, base_id, k=3, p_ctx=0.0, p_bare=0.2):
     tries = 0
     while len(out) < n and tries < 200 * n:
         tries += 1
+        focus[0] = rnd.choice(L[1:-1])
         prefix = rnd.choice([None, None, chr_(60), chr_(97)])
         nr = rnd.choice([2, 2, 3, 3, 4])
         rules = []
